@@ -390,6 +390,8 @@ def c20_se(tier, seed):
             check('rand%d' % r_, g)
             check('rand%d-scaled' % r_, {k: -2 * v for k, v in g.items()})
             check('rand%d-permuted' % r_, dict(reversed(list(g.items()))))
+            check('rand%d-minus-one' % r_, {k: -1 for k in g})          # ... and then the same descriptors with -2: two mappings that python hashes alike
+            check('rand%d-minus-two' % r_, {k: -2 for k in g})
             if len(samples) < 3:
                 samples.append({'library': name, 'groups': {str(k): v for k, v in g.items()}})
         # a descriptor with data but outside the basis: synthetic reduced basis
@@ -397,6 +399,16 @@ def c20_se(tier, seed):
         drop = 0
         keep = [i for i in range(len(D)) if i != drop]
         lib.uq_contents = {'RMSE': full['RMSE'], 'descriptors': [D[i] for i in keep], 'mat': M[np.ix_(keep, keep)], 'dof': full['dof']}
+        # the stored matrix written with whole numbers only (an integer array): fractional counts must still count as fractions
+        Mi = np.rint(M * 1000).astype('int64')
+        lib.uq_contents = {'RMSE': full['RMSE'], 'descriptors': list(D), 'mat': Mi, 'dof': full['dof']}
+        M_keep, M = M, Mi.astype(float)
+        try:
+            check('integer-matrix-fractional-counts', {D[0]: 0.5, D[1]: 1.5})
+            check('integer-matrix-half', {D[2]: 0.5})
+        finally:
+            M = M_keep
+            lib.uq_contents = {'RMSE': full['RMSE'], 'descriptors': [D[i] for i in keep], 'mat': M[np.ix_(keep, keep)], 'dof': full['dof']}
         try:
             check('outside-basis', {D[drop]: 1, D[1]: 2}, expect_error=True)
             # a rejected mapping (the bad descriptor is NOT the first key) leaves nothing behind: the next estimates on the same library object
@@ -1221,6 +1233,34 @@ def c16_rewriter(tier, seed):
                     viol.append({'id': 'unbalanced-%s-%d' % (name, i), 'input': t2, 'observed': type(ex).__name__, 'expected': 'RINGReaderError (electron balance)'})
     # unbalanced rules whose per-atom imbalances CANCEL in the total (what one labelled atom gains another loses): still rejected
     frag = 'C labeled c1  C labeled c2 single bond to c1  H labeled h1 single bond to c2'
+    # half-electron imbalances (aromatic bond = 1.5 per end): still an imbalance
+    for name_, patt_, edits_ in (('single-to-aromatic-one-radical', 'C. labeled c1 C. labeled c2 single bond to c1', 'modify bond (c1, c2, aromatic) decrease number of radical (c1)'),
+                                 ('aromatic-formed-two-radicals', 'C. labeled c1 C labeled x single bond to c1 C. labeled c2 single bond to x', 'form aromatic bond (c1, c2) decrease number of radical (c1) decrease number of radical (c2)'),
+                                 ('aromatic-broken-one-radical-each', 'C labeled c1 C labeled c2 aromatic bond to c1', 'break aromatic bond (c1, c2) increase number of radical (c1) increase number of radical (c2)')):
+        n += 1
+        t2 = 'rule x{ reactant r1{ %s } %s }' % (patt_, edits_)
+        try:
+            Read(t2)
+            viol.append({'id': 'half-electron-%s' % name_, 'input': t2, 'observed': 'accepted', 'expected': 'rejected (a labelled atom is half an electron off)',
+                         'script': "from pgradd.RINGParser.Reader import Read\nRead(%r)   # expected RINGReaderError\n" % t2})
+        except (RINGReaderError, NotImplementedError):
+            pass
+        except Exception as ex:    # noqa
+            viol.append({'id': 'half-electron-%s' % name_, 'input': t2, 'observed': type(ex).__name__, 'expected': 'RINGReaderError'})
+    # a pattern may use one label for several atoms (hydrogens nobody refers to): the edits still land on the atoms they name
+    rep = 'rule r{ reactant r1{ C labeled c1 H labeled h single bond to c1 H labeled h single bond to c1 C labeled c2 single bond to c1 } break bond (c1, c2) increase number of radical (c1) increase number of radical (c2) }'
+    dis = rep.replace('H labeled h single bond to c1 H labeled h ', 'H labeled h single bond to c1 H labeled g ')
+    with real.quiet():
+        for smi in ('CC', 'CCC', 'CCO'):
+            n += 1
+            try:
+                a_ = sorted(sorted(Chem.MolToSmiles(f) for f in ps) for ps in Read(rep).RunReactants(Chem.MolFromSmiles(smi)))
+                b_ = sorted(sorted(Chem.MolToSmiles(f) for f in ps) for ps in Read(dis).RunReactants(Chem.MolFromSmiles(smi)))
+            except Exception as ex:    # noqa
+                a_, b_ = 'raised %s' % type(ex).__name__, None
+            if a_ != b_:
+                viol.append({'id': 'repeated-label-%s' % smi, 'input': {'rule': rep, 'molecule': smi}, 'observed': a_, 'expected': b_,
+                             'script': "from rdkit import Chem\nfrom pgradd.RINGParser.Reader import Read\nprint([[Chem.MolToSmiles(f) for f in ps] for ps in Read(%r).RunReactants(Chem.MolFromSmiles(%r))])\n" % (rep, smi)})
     # an untyped 'break bond' means a single bond: on a double- or triple-bond pattern one radical per end does not balance it
     for bk in ('double', 'triple'):
         n += 1
@@ -1347,7 +1387,12 @@ def c17_closure(tier, seed):
     ring = {'CH': 'rule r{ reactant r1{ C? labeled c1 H labeled h1 single bond to c1 } break bond (c1, h1) increase number of radical (c1) increase number of radical (h1) }',
             'OH': 'rule r{ reactant r1{ O? labeled o1 H labeled h1 single bond to o1 } break bond (o1, h1) increase number of radical (o1) increase number of radical (h1) }'}
     with real.quiet():
-        for rk, spellings in (('CH', ['CCO', 'OCC', 'C(O)C']), ('OH', ['OCC', 'CCO']), ('CH', ['CO', 'OC'])):
+        # a RING rule whose two carbons are described differently (radical carbon / closed-shell carbon), on both atom orders of the seed
+        ring['RC'] = 'rule rc{ reactant r1{ C. labeled c1 C labeled c2 single bond to c1 } increase number of radical (c1) increase number of radical (c2) break bond (c1, c2) }'
+        ring['CR'] = 'rule cr{ reactant r1{ C labeled c1 C. labeled c2 single bond to c1 } increase number of radical (c1) increase number of radical (c2) break bond (c1, c2) }'
+        rules['RC'] = '[CX3:1]-[CX4:2]>>[C:1].[C:2]'
+        rules['CR'] = '[CX4:1]-[CX3:2]>>[C:1].[C:2]'
+        for rk, spellings in (('CH', ['CCO', 'OCC', 'C(O)C']), ('OH', ['OCC', 'CCO']), ('CH', ['CO', 'OC']), ('RC', ['C[CH2]', '[CH2]C']), ('CR', ['C[CH2]', '[CH2]C'])):
             for smi in spellings:
                 n += 1
                 try:
